@@ -302,6 +302,12 @@ func oracle(c config, res *result, slack time.Duration) string {
 		if res.err == nil {
 			reasons = append(reasons, "a response was returned although every call failed")
 		}
+		// "returns the first successful response … for all k up to the number of attempts the timeout allows": giving up is for
+		// when the timeout has run out.  An error returned so early that even the longest permitted wait would have ended before
+		// the timeout, while the next response of the wrapped getter is a success, withholds that success.
+		if n := len(res.calls); res.err != nil && n > 0 && c.max >= 0 && c.entry(n).ok && res.retAt+c.max+slack < c.to {
+			reasons = append(reasons, fmt.Sprintf("gave up early: error returned at %v after %d failed attempt(s) although the timeout is %v, a wait is at most MaxRetryDelay = %v, and attempt %d succeeds — the first successful response is not returned for k = %d failures, which the timeout allows", res.retAt, n, c.to, c.max, n+1, n))
+		}
 		bound := max(c.to, 0) + c.maxDur() + max(c.max, 0) + slack
 		if res.retAt > bound {
 			reasons = append(reasons, fmt.Sprintf("gave up too late: returned at %v, bound Timeout+call+Max = %v", res.retAt, bound))
